@@ -215,15 +215,9 @@ EXPORT char *_stpncpy_s_chk(char *restrict dest, rsize_t dmax,
             if (*dest == '\0')
                 goto eok;
             dmax--;
-            slen++;
+            slen--;
             dest++;
             src++;
-            if (unlikely(slen >= srcbos)) {
-                invoke_safe_str_constraint_handler("stpncpy_s: src unterminated",
-                                                   (void *)src, ESUNTERM);
-                *errp = RCNEGATE(ESUNTERM);
-                return NULL;
-            }
         }
     } else {
         overlap_bumper = dest;
@@ -266,15 +260,9 @@ EXPORT char *_stpncpy_s_chk(char *restrict dest, rsize_t dmax,
             }
 
             dmax--;
-            slen++;
+            slen--;
             dest++;
             src++;
-            if (unlikely(slen >= srcbos)) {
-                invoke_safe_str_constraint_handler("stpncpy_s: src unterminated",
-                                                   (void *)src, ESUNTERM);
-                *errp = RCNEGATE(ESUNTERM);
-                return NULL;
-            }
         }
     }
 
